@@ -2,18 +2,18 @@ INIT SimInit
 NEXT SimNext
 CONSTANTS
   Src = {s1, s2}
-  Tgt = {t1, t2}
-  MaxId = 3
-  MaxBatch = 2
-  MaxWm = 2
+  Tgt = {t1}
+  MaxId = 2
+  MaxBatch = 1
+  MaxWm = 0
   ChanCap = 4
   AckCap = 2
-  MaxFaults = 2
-  SrcFaults = TRUE
+  MaxFaults = 0
+  SrcFaults = FALSE
   LateTgt = {}
   SeedFix = TRUE
-  Depth = 16
+  Depth = 14
   MaxIdle = 0
   HoldClose = FALSE
-  HoldAck = FALSE
+  HoldAck = TRUE
 CHECK_DEADLOCK FALSE
